@@ -1,6 +1,7 @@
 package llo
 
 import (
+	"bytes"
 	"crypto/sha256"
 	"encoding/binary"
 	"errors"
@@ -116,7 +117,14 @@ func (p *Plugin) outcome(outctx ocr3types.OutcomeContext, query types.Query, aos
 	}
 	// Use predictable order for adding channels (id asc) so that extras that
 	// exceed the max are consistent across all nodes
-	sort.Slice(orderedHashes, func(i, j int) bool { return orderedHashes[i].ChannelID < orderedHashes[j].ChannelID })
+	sort.Slice(orderedHashes, func(i, j int) bool {
+		if orderedHashes[i].ChannelID == orderedHashes[j].ChannelID {
+			// two competing definitions for one channel id: break the tie by
+			// hash so that every node applies them in the same order
+			return bytes.Compare(orderedHashes[i].ChannelHash[:], orderedHashes[j].ChannelHash[:]) < 0
+		}
+		return orderedHashes[i].ChannelID < orderedHashes[j].ChannelID
+	})
 	for _, hwid := range orderedHashes {
 		voteCount := updateChannelVotesByHash[hwid.ChannelHash]
 		if voteCount <= p.F {
